@@ -160,7 +160,10 @@ class WrappedField:
         if not self.is_container and not self.is_optional:
             raise ValueError("Field is not a container")
         if self.is_optional:
-            return get_args(self.resolved_type)[0]
+            # the None may be written first: Union[None, T]
+            return next(
+                arg for arg in get_args(self.resolved_type) if arg is not NoneType
+            )
         else:
             try:
                 return get_args(self.resolved_type)[0]
